@@ -1522,6 +1522,7 @@ func (p *Parser) parseHaving(stmt *SelectStatement) error {
 	iterations := 0
 
 	var conditions []string
+	inOrderBy := false
 	for {
 		iterations++
 		// 安全检查：防止无限循环
@@ -1532,6 +1533,14 @@ func (p *Parser) parseHaving(stmt *SelectStatement) error {
 		tok := p.lexer.NextToken()
 		if tok.Type == TokenLIMIT || tok.Type == TokenEOF || tok.Type == TokenWITH {
 			break
+		}
+		// ORDER BY follows HAVING: its keys belong to parseOrderBy (which re-lexes the
+		// input), not to the HAVING text. Keep consuming up to the usual terminators.
+		if tok.Type == TokenOrder {
+			inOrderBy = true
+		}
+		if inOrderBy {
+			continue
 		}
 
 		switch tok.Type {
